@@ -69,6 +69,13 @@ end
 def isAggNode : Query → Bool
   | .agg _ _ _ | .groupingSets _ _ _ _ | .distinct _ => true
   | _ => false
+/-- an aggregation that forms groups by key: GROUP BY with at least one key, grouping sets, DISTINCT. A global aggregate
+    (no key) is NOT one: none of the open C21 findings (F2 empty aggregate list with NULL keys, F3 / F4 all-NULL key group)
+    concerns it, so a wrong global aggregate is never explained by C01-F21. -/
+def isGroupedNode : Query → Bool
+  | .agg keys _ _ => !keys.isEmpty
+  | .groupingSets _ _ _ _ | .distinct _ => true
+  | _ => false
 def isJoinNode : Query → Bool
   | .join _ _ _ _ _ _ _ => true
   | _ => false
@@ -99,7 +106,8 @@ def groupingOverJoin : Query → Bool
     (set operations at the top of the statement: C01-F24a NULLs / C01-F24b ALL multiplicities); otherwise signature +
     neutraliser (DESIGN §3.4): a WRONG ANSWER (never a panic) over tables that contain NULLs whose `nonull`-neutralised
     case passes the oracle on the real code, classified by the constructs present:
-      C01-F21 aggregation / DISTINCT / grouping sets   (C21: NULL keys and NULL inputs of accumulators)
+      C01-F21 GROUP BY with keys / DISTINCT / grouping sets (C21-F2/F3/F4: NULL keys); a statement whose only aggregations are
+              global (no key) is never attributed here
       C01-F23 subquery expressions, no aggregation     (C23: NULL operands of IN / scalar subqueries)
       C01-F22 joins, no aggregation, no subquery       (C22: NULL join keys / NULL-extended rows)
       C01-F24a set operations below the top level       (C24: NULLs not distinct)
@@ -119,7 +127,7 @@ def attrC01 : AttrFn := fun c o spec =>
       else none
     if exact.isSome then exact
     else if hasNull c && neutralPasses c then
-      if anyNode isAggNode c.plan then some "C01-F21"
+      if anyNode isAggNode c.plan then (if anyNode isGroupedNode c.plan then some "C01-F21" else none)
       else if anyNode hasSubqueryExpr c.plan then some "C01-F23"
       else if anyNode isJoinNode c.plan then some "C01-F22"
       else if anyNode isSetopNode c.plan then some "C01-F24a"
